@@ -10,7 +10,7 @@ PY = "/venv/bin/python"
 def reexec():
     if os.environ.get("NV_REEXEC") != "1" or os.path.realpath(sys.executable) != os.path.realpath(PY):
         env = dict(os.environ)
-        env.update({"NV_REEXEC": "1", "PYTHONPATH": "/repo/src:" + os.path.join(VERIF, "harness"),
+        env.update({"NV_REEXEC": "1", "PYTHONPATH": os.path.join(os.environ.get("NV_REPO", "/repo"), "src") + ":" + os.path.join(VERIF, "harness"),
                     "PYTHONHASHSEED": "0", "PYTHONDONTWRITEBYTECODE": "1"})
         os.execve(PY, [PY, os.path.abspath(__file__)] + sys.argv[1:], env)
 
